@@ -37,6 +37,23 @@ pub trait Setup: 'static + Send + Sync {
         packing: &TablePacking,
         profile: ConstraintProfile,
     ) -> Result<CircuitProverData<Self::SC>, String>;
+    /// Like [`Self::prover`], optionally with the recompose tables registered and/or the
+    /// upstream lookup debugger switched on.
+    fn prover_x(packing: TablePacking, recompose: bool, debug_lookups: bool) -> BatchStarkProver<Self::SC>;
+    /// Like [`Self::prep`], optionally with the recompose NPO preprocessor / AIR builders.
+    fn prep_x(
+        circuit: &Circuit<Self::E>,
+        packing: &TablePacking,
+        profile: ConstraintProfile,
+        recompose: bool,
+    ) -> Result<CircuitProverData<Self::SC>, String>;
+    /// O3: replay the WitnessChecks bus of the primitive tables (see `bus.rs`).
+    fn bus(
+        circuit: &Circuit<Self::E>,
+        traces: &Traces<Self::E>,
+        packing: &TablePacking,
+        recompose: bool,
+    ) -> Result<Vec<crate::bus::BusEvent>, String>;
     fn prove(
         prover: &BatchStarkProver<Self::SC>,
         traces: &Traces<Self::E>,
@@ -90,6 +107,60 @@ macro_rules! impl_setup {
                 let (airs, degs): (Vec<_>, Vec<usize>) = ad.into_iter().unzip();
                 let pd = ProverData::from_airs_and_degrees(&cfg, &airs, &degs);
                 Ok(CircuitProverData::new(pd, prim, nonprim))
+            }
+            fn prover_x(packing: TablePacking, recompose: bool, debug_lookups: bool) -> BatchStarkProver<$sc> {
+                let mut p = BatchStarkProver::new($cfg()).with_table_packing(packing);
+                if recompose && $d > 1 {
+                    p.register_recompose_table::<$d>(false);
+                }
+                if debug_lookups {
+                    p = p.with_debug_lookups();
+                }
+                p
+            }
+            fn prep_x(
+                circuit: &Circuit<$e>,
+                packing: &TablePacking,
+                profile: ConstraintProfile,
+                recompose: bool,
+            ) -> Result<CircuitProverData<$sc>, String> {
+                let cfg = $cfg();
+                let (pre, airb): (
+                    Vec<Box<dyn p3_circuit_prover::common::NpoPreprocessor<$b>>>,
+                    Vec<Box<dyn p3_circuit_prover::common::NpoAirBuilder<$sc, $d>>>,
+                ) = if recompose && $d > 1 {
+                    (
+                        vec![p3_circuit_prover::batch_stark_prover::recompose_preprocessor::<$b>(false)],
+                        p3_circuit_prover::batch_stark_prover::recompose_air_builders::<$sc, $d>(1, false),
+                    )
+                } else {
+                    (vec![], vec![])
+                };
+                let (ad, prim, nonprim) =
+                    get_airs_and_degrees_with_prep::<$sc, $e, $d>(circuit, packing, &pre, &airb, profile)
+                        .map_err(|e| format!("{e:?}"))?;
+                let (airs, degs): (Vec<_>, Vec<usize>) = ad.into_iter().unzip();
+                let pd = ProverData::from_airs_and_degrees(&cfg, &airs, &degs);
+                Ok(CircuitProverData::new(pd, prim, nonprim))
+            }
+            fn bus(
+                circuit: &Circuit<$e>,
+                traces: &Traces<$e>,
+                packing: &TablePacking,
+                recompose: bool,
+            ) -> Result<Vec<crate::bus::BusEvent>, String> {
+                let (pre, airb): (
+                    Vec<Box<dyn p3_circuit_prover::common::NpoPreprocessor<$b>>>,
+                    Vec<Box<dyn p3_circuit_prover::common::NpoAirBuilder<$sc, $d>>>,
+                ) = if recompose && $d > 1 {
+                    (
+                        vec![p3_circuit_prover::batch_stark_prover::recompose_preprocessor::<$b>(false)],
+                        p3_circuit_prover::batch_stark_prover::recompose_air_builders::<$sc, $d>(1, false),
+                    )
+                } else {
+                    (vec![], vec![])
+                };
+                crate::bus::bus_events::<$sc, $e, $d>(circuit, traces, packing, &pre, &airb)
             }
             fn prove(
                 prover: &BatchStarkProver<$sc>,
